@@ -151,26 +151,45 @@ impl<'l> CelCompiler<'l> {
             let true_clause_bytecode = true_clause_node.into_bytecode();
             let false_clause_bytecode = false_clause_node.into_bytecode();
 
-            let after_true_clause = self.new_label();
+            let true_label = self.new_label();
+            let false_label = self.new_label();
             let end_label = self.new_label();
 
+            // The condition is reduced to its truthiness (as the folded form above does) and a
+            // failing condition is the result of the whole expression:
+            //   cond TEST DUP JMPCOND(true -> T) DUP NOT JMPCOND(true -> F) JMP end
+            //   T: POP <true clause> JMP end   F: POP <false clause>   end:
             CompiledProg {
                 inner: NodeValue::Bytecode(
                     expr_node
                         .into_bytecode()
                         .into_iter()
                         .chain(
-                            [PreResolvedCodePoint::JmpCond {
-                                when: JmpWhen::False,
-                                label: after_true_clause,
-                            }]
+                            [
+                                PreResolvedCodePoint::Bytecode(ByteCode::Test),
+                                PreResolvedCodePoint::Bytecode(ByteCode::Dup),
+                                PreResolvedCodePoint::JmpCond {
+                                    when: JmpWhen::True,
+                                    label: true_label,
+                                },
+                                PreResolvedCodePoint::Bytecode(ByteCode::Dup),
+                                PreResolvedCodePoint::Bytecode(ByteCode::Not),
+                                PreResolvedCodePoint::JmpCond {
+                                    when: JmpWhen::True,
+                                    label: false_label,
+                                },
+                                PreResolvedCodePoint::Jmp { label: end_label },
+                                PreResolvedCodePoint::Label(true_label),
+                                PreResolvedCodePoint::Bytecode(ByteCode::Pop),
+                            ]
                             .into_iter(),
                         )
                         .chain(true_clause_bytecode.into_iter())
                         .chain(
                             [
                                 PreResolvedCodePoint::Jmp { label: end_label },
-                                PreResolvedCodePoint::Label(after_true_clause),
+                                PreResolvedCodePoint::Label(false_label),
+                                PreResolvedCodePoint::Bytecode(ByteCode::Pop),
                             ]
                             .into_iter(),
                         )
